@@ -815,7 +815,7 @@ def jobs(tier: str, seed: int):
             if nd == 0 and op == "concatenate":
                 continue
             add("join", op=op, nd=nd, narr=narr, maxlen=3 if nd * narr <= 4 else 2)
-    for o, n in [(1, 1), (1, 2), (2, 1), (2, 2), (0, 1), (1, 0)] + ([(2, 3), (3, 2), (3, 1), (0, 2)] if th else []):
+    for o, n in [(1, 1), (1, 2), (2, 1), (2, 2), (0, 1), (1, 0)] + ([(3, 1), (0, 2), (1, 3)] if th else []):      # ((2,3) and (3,2) do not finish within budget even at lengths <= 2: outside)
         for order in ("C", "F") if th else ("C",):
             add("reshape", old_nd=o, new_nd=n, order=order, maxlen=(3 if o + n <= 4 else 2) if th else (3 if o + n <= 3 else 2))
     for which, nds in [("roll", (1, 2, 3)), ("expand_dims", (0, 1, 2)), ("expand_dims2", (0, 1, 2)), ("squeeze", (1, 2, 3)),
